@@ -85,6 +85,8 @@ def C14():
                        mirjobs.stream_write_all))
     jobs.append(MirJob("c14_mir_tpkt_write", "tpkt::Client::write: the u16 handed to tpkt_header equals Message::length() and length()+4 fits 16 bits on every path that sends (else Err); frame is [header, message]; Link::write's result is returned unchanged; same shape for x224::Client::write",
                        mirjobs.tpkt_write))
+    jobs.append(MirJob("c14_mir_link_no_retry_loop", "model/link.rs: no function of the link layer contains a loop of its own (a write is one Message::write into a buffer and one complete-or-error Stream::write: no resend of a frame that may have been partly delivered)",
+                       mirjobs.acyclic("src/model/link.rs", native=mirjobs.LINK_NATIVE)))
     return Prop("C14", [("core/tpkt.rs", "tpkt.rs")], jobs, lowerings=["L2"],
                 assumptions=[S1, S6, S7, DEV, "L2 light error payloads (Error::Io/SslError carry () in the model-checked copy; replay runs on the un-lowered tree)"],
                 stubs=[S1, S7],
